@@ -396,8 +396,17 @@ func checkClone(p *Program, r *Report, pv *Prov) {
 		}
 		n++
 		// the receiver must not have been analysed: the conditions on the path are only possible for a fresh record
-		if ts := discoverTmplStatus(p); !ts.pathImplies(pe, pth, "fresh") {
+		if ts := discoverTmplStatus(p).withSubject(pe, fn.Params[0]); ts.pathFeasible(pe, pth) && !ts.pathImplies(pe, pth, "fresh") {
 			okRecv = false
+			if os.Getenv("C07_DEBUG") != "" {
+				fmt.Println("C07 recv path:", pth.String(), "subject", ts.subject)
+				for nm := range pth.Atoms {
+					if av, have := pe.AtomVals[nm]; have {
+						b, okb := ts.baseOf(pe, av)
+						fmt.Printf("   atom %s base=%q %v cond=%s\n", nm, b, okb, av.v)
+					}
+				}
+			}
 		}
 		// the per-template marks can be lost (New with the name of an executed template replaces it by
 		// a fresh one): the freeze flag of the name space is the only record that the trees were rewritten
